@@ -765,6 +765,162 @@ def generate_fns(repo):
     return text, items
 
 
+OUT_FNS = ["normalize_uri_element", "normalize_query_string_element", "normalize_uri_path_component", "canonicalize_uri_path"]
+OUT_TYPES = {"normalize_uri_element": "Nat → Bytes → UriElement → Outcome Bytes", "normalize_query_string_element": "Nat → Bytes → Outcome Bytes",
+             "normalize_uri_path_component": "Nat → Bytes → Outcome Bytes", "canonicalize_uri_path": "Nat → Bytes → Bool → Outcome Bytes"}
+OUT_STUB = {"normalize_uri_element": "fun _ _ _ => .panic \"untranslated\"", "normalize_query_string_element": "fun _ _ => .panic \"untranslated\"",
+            "normalize_uri_path_component": "fun _ _ => .panic \"untranslated\"", "canonicalize_uri_path": "fun _ _ _ => .panic \"untranslated\""}
+
+def read_enum(toks, name):
+    """`enum Name { A, B, … }` (unit variants only) -> [A, B, …] or None."""
+    i = find_seq(toks, [("id", "enum"), ("id", name), ("p", "{")])
+    if i < 0:
+        return None
+    e = matching(toks, i + 2)
+    out = []
+    for t in toks[i + 3:e]:
+        if t.k == "id":
+            out.append(t.v)
+        elif not (t.k == "p" and t.v == ","):
+            return None
+    return out
+
+def generate_fns_o(repo):
+    """SigV4/Source/GeneratedFnsO.lean: Result-returning functions of src/canonical.rs in the model's Outcome monad."""
+    import rustout, rustlite
+    items, defs, wraps = {}, [], []
+    try:
+        toks = lex(open(os.path.join(repo, "src", "canonical.rs"), encoding="utf-8").read())
+    except Exception:                                               # noqa
+        toks = None
+    ctx = {"enums": {}, "pure": {}, "monadic": {}, "regexes": {}, "consts": {}}
+    pre = []
+    if toks is not None:
+        try:
+            ev = read_enum(toks, "UriElement")
+            if ev == ["Path", "Query"]:
+                ctx["enums"]["UriElement"] = ev
+            consts = read_consts(toks)
+            ctx["consts"] = {k: v[1] for k, v in consts.items() if v[0] == "bytes"}
+            # pure byte helpers (re-read here so that this file stands on its own)
+            params, body = fn_body(toks, "is_rfc3986_unreserved")
+            var = single_u8_param(params)
+            if var and not any(t.k == "p" and t.v in (";", "{") for t in body):
+                pre.append(f"def is_rfc3986_unreserved ({var} : UInt8) : Bool := {translate_u8_expr(body, var, {})}\n")
+                ctx["pure"]["is_rfc3986_unreserved"] = (["u8"], "bool")
+            hexd = consts.get("HEX_DIGITS_UPPER")
+            sig = fn_sig(toks, "u8_to_upper_hex")
+            if hexd and hexd[0] == "array" and sig:
+                var = single_u8_param(sig[0])
+                b = sig[2]
+                if b[0].v == "let":
+                    i = find_seq(b, [("p", "=")]); semi = find_seq(b, [("p", ";")], i)
+                    b = b[i + 1:semi]
+                if var and b[0].v == "[" and matching(b, 0) == len(b) - 1:
+                    inner, parts, depth, cur = b[1:-1], [], 0, []
+                    for t in inner:
+                        if t.k == "p" and t.v in "([": depth += 1
+                        if t.k == "p" and t.v in ")]": depth -= 1
+                        if t.k == "p" and t.v == "," and depth == 0:
+                            parts.append(cur); cur = []
+                        else:
+                            cur.append(t)
+                    if cur: parts.append(cur)
+                    tab = {"HEX_DIGITS_UPPER": lean_bytes(hexd[1])}
+                    pre.append(f"def u8_to_upper_hex ({var} : UInt8) : Bytes := [" + ", ".join(translate_u8_expr(q, var, tab) for q in parts) + "]\n")
+                    ctx["pure"]["u8_to_upper_hex"] = (["u8"], "vec")
+            regs = read_regexes(toks)
+            if "MULTISLASH" in regs:
+                a, b_, body = parse_regex(regs["MULTISLASH"])
+                if not a and not b_:
+                    ctx["regexes"]["MULTISLASH"] = body
+        except Exception:                                           # noqa
+            pass
+    for name in OUT_FNS:
+        key = f"canonical.{name}"
+        text = None
+        if toks is not None:
+            try:
+                sig = fn_sig(toks, name)
+                if sig is not None:
+                    text, ty = rustout.translate_result_fn(name, sig[0], sig[1], sig[2], ctx)
+                    got = "Nat → " + " → ".join(rustout.lean_ty(t).replace("Rust.", "") for t in ty[0]) + " → Outcome " + rustout.lean_ty(ty[1])
+                    if got != OUT_TYPES[name]:
+                        text = None
+                    else:
+                        ctx["monadic"][name] = ty
+            except Exception as ex:                                 # noqa
+                if os.environ.get("SRCGEN_DEBUG"):
+                    print("rustout:", name, ex)
+                text = None
+        if text:
+            defs.append(text.replace("Rust.UriElement", "UriElement") + "\n")
+            wraps.append(f"def canonical.{name}? : Option ({OUT_TYPES[name].replace('UriElement', 'fnO.UriElement')}) := some fnO.{name}")
+            items[key] = "read"
+        else:
+            defs.append(f"def {name} : {OUT_TYPES[name]} := {OUT_STUB[name]}   -- stub: outside the translator's subset on this tree\n")
+            wraps.append(f"def canonical.{name}? : Option ({OUT_TYPES[name].replace('UriElement', 'fnO.UriElement')}) := none   -- outside the translator's subset on this tree")
+            items[key] = "unreadable"
+    # src/auth.rs: SigV4Authenticator::prevalidate (a method: the two fields it reads through trivial getters become parameters)
+    PRE_TY = "Nat → Bytes → Int → Bytes → Bytes → Int → Int → Outcome Unit"
+    text = None
+    try:
+        atoks = lex(open(os.path.join(repo, "src", "auth.rs"), encoding="utf-8").read())
+        getters = {}
+        for g, gty, shapes in (("credential", "string", (["&", "self", ".", "credential"],)), ("request_timestamp", "time", (["self", ".", "request_timestamp"],))):
+            sg = fn_sig(atoks, g)
+            if sg is not None and [t.v for t in sg[0]] == ["&", "self"] and [t.v for t in sg[2]] in [list(x) for x in shapes]:
+                getters[g] = gty
+        if len(getters) == 2:
+            actx = {"enums": {}, "pure": {}, "monadic": {}, "regexes": {}, "self_getters": getters,
+                    "consts": {k: v[1] for k, v in read_consts(atoks).items() if v[0] == "bytes"}}
+            sg = fn_sig(atoks, "prevalidate")
+            if sg is not None:
+                text, ty = rustout.translate_result_fn("prevalidate", sg[0], sg[1], sg[2], actx)
+                got = "Nat → " + " → ".join(rustout.lean_ty(t) for t in ty[0]) + " → Outcome " + rustout.lean_ty(ty[1])
+                if got != PRE_TY:
+                    text = None
+    except Exception as ex:                                         # noqa
+        if os.environ.get("SRCGEN_DEBUG"):
+            print("rustout: prevalidate", ex)
+        text = None
+    if text:
+        defs.append(text + "\n")
+        wraps.append(f"def auth.prevalidate? : Option ({PRE_TY}) := some fnO.prevalidate")
+        items["auth.prevalidate"] = "read"
+    else:
+        defs.append(f"def prevalidate : {PRE_TY} := fun _ _ _ _ _ _ _ => .panic \"untranslated\"   -- stub: outside the translator's subset on this tree\n")
+        wraps.append(f"def auth.prevalidate? : Option ({PRE_TY}) := none   -- outside the translator's subset on this tree")
+        items["auth.prevalidate"] = "unreadable"
+    if "is_rfc3986_unreserved" not in ctx["pure"]:
+        pre.append("def is_rfc3986_unreserved (_ : UInt8) : Bool := false   -- stub\n")
+    if "u8_to_upper_hex" not in ctx["pure"]:
+        pre.append("def u8_to_upper_hex (_ : UInt8) : Bytes := []   -- stub\n")
+    header = [
+        "/-",
+        "  GENERATED by /verif/srcgen/srcgen.py (rustout.py) from /repo/src/canonical.rs — do not edit; regenerated on every",
+        "  run of ./check.  Statement-by-statement translations into Lean `do` notation in the model's `Outcome` monad:",
+        "  `Err(kind)` is `Outcome.err kind`, an out-of-range index / failed assert / `unwrap` on `None` is `Outcome.panic`,",
+        "  `fuel` bounds every `while` loop (`panic \"fuel\"` when exhausted).",
+        "-/",
+        "import SigV4.Source.RustO",
+        "import SigV4.Source.RE",
+        "import SigV4.Source.Rust",
+        "",
+        "set_option linter.unusedVariables false",
+        "",
+        "namespace SigV4.Src.fnO",
+        "",
+        "inductive UriElement where",
+        "  | Path",
+        "  | Query",
+        "  deriving DecidableEq, Repr",
+        "",
+    ]
+    text = "\n".join(header + pre + defs + ["end SigV4.Src.fnO", "", "namespace SigV4.Src", ""] + wraps + ["", "end SigV4.Src", ""])
+    return text, items
+
+
 def main():
     repo, out, js = "/repo", None, None
     a = sys.argv[1:]
@@ -785,10 +941,16 @@ def main():
     if old2 != text2:
         open(out2, "w").write(text2)
     items.update(items2)
+    out3 = os.path.join(os.path.dirname(out), "GeneratedFnsO.lean")
+    text3, items3 = generate_fns_o(repo)
+    old3 = open(out3).read() if os.path.exists(out3) else None
+    if old3 != text3:
+        open(out3, "w").write(text3)
+    items.update(items3)
     if js:
-        json.dump({"items": items, "changed": old != text or old2 != text2}, open(js, "w"), indent=1)
+        json.dump({"items": items, "changed": old != text or old2 != text2 or old3 != text3}, open(js, "w"), indent=1)
     print("srcgen: %d items read, %d unreadable%s" % (sum(v == "read" for v in items.values()),
-          sum(v != "read" for v in items.values()), "" if old == text and old2 == text2 else " (generated files rewritten)"))
+          sum(v != "read" for v in items.values()), "" if old == text and old2 == text2 and old3 == text3 else " (generated files rewritten)"))
 
 
 if __name__ == "__main__":
